@@ -41,6 +41,10 @@ CHECKS = {
    technique="TLC check of counter/gauge conservation on impl/SendReply; metric getters read at quiescent points of recorded histories compared with the raw peer's independent counts by prop/Txn Met clauses",
    text="impl/SendReply carries the in-flight gauge and the sent/err/drop counters as ordinary variables; TLC checks InflightConserves and SendMatchesWire in every interleaving. On the code, every scenario of the C06/C09 families reads all metric getters before and after (all calls returned, barrier done) and samples the gauges throughout; prop/Txn judges: in-flight gauge 0 at quiescence and never negative, reconnecting gauge never negative and 0 at quiescent Selected/closed, DataMsgSendCount delta = data frames the peer received, DataMsgRecvCount delta = well-formed data frames the peer sent while Selected, error delta = number of T3 outcomes (reject: none), drop delta = number of refused sends (incl. refusals at the write boundary with the writer parked).",
    note="Wire-equality clauses are judged in scenario kinds without an abrupt generation end (plain, cancel, stall, b2); the reconnecting gauge's 'positive while a loop runs' clause is judged by C11."),
+ "C11": dict(cat="fault_enumeration", engine="recovery-e2e", design="§4 C11",
+   technique="TLA+ backoff schedule (fn/Backoff) and recovery property (prop/Recovery) as trace acceptors over an enumeration of link faults at byte offsets on live connections; pure backoff step checked against the spec operator over a grid",
+   text="Every exchange of a session (TCP connect, Select.req, Select.rsp, inbound data primary, reply to an outbound primary, Linktest.req, Linktest.rsp, idle) is cut at byte offsets of its frame (every 3rd offset plus 0, 4 and the last in quick; every offset in thorough) by peer close, peer RST or a silent stall that only T6 / T7 / T8 / the write timeout / the linktest can detect, plus select rejection and 0..4 consecutive refused dials under three backoff configurations, on active and passive live hsmsss connections. TLC judges each recorded scenario with prop/Recovery: the broken session is left within the covering timer, an idle gap does not time out, dial gaps follow Backoff!Sleep(k) (floor -2 ms, ceiling +200 ms), exactly refused+1 dials, passive re-listens, a Selected session with a W round trip in both directions is reached, Reconnects() moves by exactly the successful re-dials, the reconnecting gauge is never negative / positive while dials are refused / zero after recovery, and nothing dials or listens after Close. The exported real nextBackoffDelay agrees with Backoff!Next on a 798-point grid.",
+   note="Timers are scaled down (T5 60..200 ms); bounds are one-sided plus generous ceilings with measured-jitter slack. HSMS-SS transport only."),
 }
 
 NA = {
@@ -81,6 +85,8 @@ def main():
                serves_properties=["C07", "C08"], kind_free_text="scripted raw HSMS peer over loopback TCP; TLA+ transducer as trace acceptor"),
           dict(name="txn-e2e", path="spec/impl/SendReply.tla spec/prop/Txn.tla spec/trace/OracleTxn.tla harness/cmd/vh/txn.go",
                serves_properties=["C06", "C09", "C20"], kind_free_text="TLC exhaustive model + scripted-peer histories judged by a TLA+ property module"),
+          dict(name="recovery-e2e", path="spec/fn/Backoff.tla spec/prop/Recovery.tla spec/trace/OracleRecovery.tla harness/cmd/vh/recov.go",
+               serves_properties=["C11"], kind_free_text="fault enumeration at byte offsets against a raw peer; TLA+ property module as acceptor"),
         ],
         checks=checks, not_applicable=na,
         notes="All checks rebuild the Go harness from /repo's working tree (-tags verif). Exit 2 = inconclusive (never a violation).")
